@@ -1138,6 +1138,11 @@ func (ex *Exec) atReturn(fr *Frame, st *State, reach string, vals []Val, pos tok
 	}
 	ex.bindResults(env, fr.fn, vals)
 	for i, cl := range ctr.Ensures {
+		if ex.interfere && len(cl.Tags) > 0 && !tagsIntersect(cl.Tags, ex.unitTags) {
+			// a clause of the sequential reading (other properties) is neither claimed
+			// nor assumed when interference is modelled
+			continue
+		}
 		g := env.evalBool(cl.E, fmt.Sprintf("%s ensures #%d", ctr.Key, i+1))
 		ex.oblige(fr, "post", cl.Tags, pos, "ensures "+cl.Text, reach, g)
 	}
@@ -1573,4 +1578,15 @@ func nodeTextAny(n *Node) string {
 		return nodeText(n.Args[0]) + "(" + nodeTextAny(n.Args[1]) + ")"
 	}
 	return "the variant"
+}
+
+func tagsIntersect(a, b []string) bool {
+	for _, x := range a {
+		for _, y := range b {
+			if x == y {
+				return true
+			}
+		}
+	}
+	return false
 }
